@@ -488,6 +488,7 @@ func (peer *peer) llgrRestartTimerStarted(family bgp.Family) {
 		if a.State.Family == family {
 			conf.AfiSafis[i].MpGracefulRestart.State.Running = false
 			conf.AfiSafis[i].LongLivedGracefulRestart.State.Running = true
+			conf.AfiSafis[i].LongLivedGracefulRestart.State.PeerRestartTimerExpired = false
 		}
 	}
 	peer.fsm.pConf.Update(&conf)
@@ -499,11 +500,13 @@ func (peer *peer) llgrRestartTimerExpired(family bgp.Family) bool {
 
 	all := true
 	conf := peer.fsm.pConf.ReadCopy()
-	for i, a := range conf.AfiSafis {
-		if a.State.Family == family {
+	for i := range conf.AfiSafis {
+		if conf.AfiSafis[i].State.Family == family {
 			conf.AfiSafis[i].LongLivedGracefulRestart.State.PeerRestartTimerExpired = true
 		}
-		s := a.LongLivedGracefulRestart.State
+		// read the state after the update above (a range copy of the element would
+		// still say "not expired" for the family that has just expired)
+		s := conf.AfiSafis[i].LongLivedGracefulRestart.State
 		if s.Received && !s.PeerRestartTimerExpired {
 			all = false
 		}
